@@ -9,6 +9,14 @@ Line-protocol driver for C16 (model side).  Ops (one scenario per case):
                                             `parallel_sync` of a node of cluster <client>, `-` for `absent`)
   candidates <mine> <members>             → `chosen <ids>`     (all sync candidates)
   targets <mine> <local|relay> <members>  → `ring0=<ids> sent=<ids>`
+  switch <old> <new> <local|relay|sync> <members>
+                                          → `before <r> after <r>`: the node runs with id <old>, decides once,
+                                            then `set-id <new>` at run time on the SAME table, decides again;
+                                            <r> = `ring0=<ids> sent=<ids>` (local|relay) or `chosen=<ids>` (sync)
+  reconf <A> <B> <declared|absent>        → `stale-conn=<applied|dropped> fresh-conn=<applied|dropped>`:
+                                            a receiver with id <A> accepts a connection, its id is set to <B>;
+                                            a payload on the old connection is judged with the id captured at
+                                            accept time, one on a new connection with <B>
 
 members: announcements `id:cluster:ring[:ts[:addr]]` joined by `,` (`-` = empty table), applied in list
 order; id = 0..11 or `s` (the node itself); cluster ≤ 65535 (u16 in the code); ring = `-` | 0..5;
@@ -119,6 +127,33 @@ def run (toks : List String) : Option String :=
     let sent := if isLocal then r0 ++ broadcastTargets selfId mine true [] [] ms
                 else broadcastTargets selfId mine false [] [] ms
     pure s!"ring0={showIds r0} sent={showIds sent}"
+  | ["switch", old, new, mode, ms] => do
+    let old ← cluster? old
+    let new ← cluster? new
+    let ms ← members? ms
+    let n0 : Node := ⟨selfId, old⟩
+    let n1 := n0.setCluster new
+    if mode = "sync" then
+      if eligible old ms > maxCandidates || eligible new ms > maxCandidates then pure "err too-many-eligible" else
+      let f (n : Node) := "chosen=" ++ showIds ((n.candidates ms).map (·.addr))
+      pure s!"before {f n0} after {f n1}"
+    else
+      let isLocal ← if mode = "local" then some true else if mode = "relay" then some false else none
+      if eligible old ms > maxTargets || eligible new ms > maxTargets then pure "err too-many-eligible" else
+      let f (n : Node) :=
+        let r0 := n.ring0 ms
+        let sent := if isLocal then r0 ++ n.targets true [] [] ms else n.targets false [] [] ms
+        s!"ring0={showIds r0} sent={showIds sent}"
+      pure s!"before {f n0} after {f n1}"
+  | ["reconf", a, b, d] => do
+    let a ← cluster? a
+    let b ← cluster? b
+    let d ← declared? d
+    let n0 : Node := ⟨selfId, a⟩
+    let conn := n0.accept
+    let n1 := n0.setCluster b
+    let sh (x : Bool) := if x then "applied" else "dropped"
+    pure s!"stale-conn={sh (acceptOnConn conn d)} fresh-conn={sh (acceptOnConn n1.accept d)}"
   | _ => none
 
 abbrev State := Unit
